@@ -12,6 +12,7 @@ SIGKEEP = ("(length(siglog) >= length(old(siglog)) and forall(INT, lambda i: imp
 def declare(spec):
     declare_main(spec)
     declare_kernel(spec)
+    declare_spawn(spec)
 
 
 def declare_main(spec):
@@ -106,3 +107,34 @@ def declare_kernel(spec):
                                'implies(result == 1 or result == 2, not (self.pid in K_alive))',
                                'implies(result == 0, self.pid in K_alive)'],
                       note='T-PSUTIL Process.status: RUNNING(0) / DEAD_OR_ZOMBIE(1) / UNEXISTING(2) / OTHER(3)'))
+
+
+def declare_spawn(spec):
+    SPKEEP = ("(length(spawnlog) >= length(old(spawnlog)) and forall(INT, lambda i: implies(0 <= i and "
+              "i < length(old(spawnlog)), spawnlog[i] == old(spawnlog)[i])))")
+    spec.consts['$SPKEEP'] = SPKEEP
+    spec.add(Contract(
+        'circus.process:Process.__init__',
+        params={'name': VAL, 'wid': INT, 'cmd': VAL, 'args': VAL, 'working_dir': VAL, 'shell': VAL, 'uid': VAL,
+                'gid': VAL, 'env': VAL, 'rlimits': VAL, 'executable': VAL, 'use_fds': VAL,
+                'watcher': Ref('Watcher'), 'spawn': VAL, 'pipe_stdout': VAL, 'pipe_stderr': VAL,
+                'close_child_stdin': VAL, 'close_child_stdout': VAL, 'close_child_stderr': VAL},
+        trusted=True,
+        modifies=['self.*', 'spawnlog', 'K_alive', 'K_child', 'clock'],
+        ensures=[
+            'self.pid > 0', 'not (self.pid in old(K_child))', 'self.pid in K_child', 'self.wid == wid',
+            'not self.stopping', 'self.started == clock', 'clock >= old(clock)', 'not self.closed',
+            'length(spawnlog) == length(old(spawnlog)) + 1',
+            'last(spawnlog) == sigev(self.pid, wid, clock, ref_id(watcher))', SPKEEP,
+            # the new child is the only addition to the child table; others may die meanwhile
+            'forall(INT, lambda p: implies(p != self.pid, (p in K_child) == (p in old(K_child))))',
+            'forall(INT, lambda p: implies(p != self.pid and (p in K_alive), p in old(K_alive)))',
+            'length(self.klog) == 0', 'self.naps == 0',
+            # A-PIDREUSE: the kernel does not hand out a pid that some watcher still lists
+            "forall(Ref('Watcher'), lambda w: not (self.pid in w.processes))",
+        ],
+        raises={'OSError': ['spawnlog == old(spawnlog)', 'K_child == old(K_child)', 'kstep()', 'clock >= old(clock)'],
+                'ValueError': ['spawnlog == old(spawnlog)', 'K_child == old(K_child)', 'kstep()', 'clock >= old(clock)']},
+        exc_modifies=['self.*', 'K_alive', 'clock'],
+        note='T-PSUTIL Process(...) with spawn=True: format_args + Popen: creates exactly one child (logged in '
+             'spawnlog) or raises OSError/ValueError (exec failure, bad rlimit) creating none'))
